@@ -181,7 +181,9 @@ var c09Mem = []string{
 	`a = (0:200) * %d; len(a + a)`,
 	`mrec = macro(x) { func mf(n) { mf(n + 1) }; mf(%d) }` + "\n" + `mrec(1)`,
 	`func ff(n) { if true { if true { if true { len([ff(n + 1)]) } } } }` + "\n" + `ff(%d)`,
-}
+	`cyc = [1, 2, 3, 4, 5, 6, 7, 8, 9, 10 + %d]; cyc[0] = cyc; len(str(cyc))`,
+	`cyc = {1: 1, 2: 2, 3: 3, 4: 4, 5: 5, 6: 6 + %d}; cyc[1] = cyc; len(str(cyc))`,
+} // keep the length odd: memory runs are those with run%3 == 2 and run%12 != 11
 
 // bytes needed per unit of the reported length, for templates whose result is the size of what was built
 var c09Unit = map[string]int64{
@@ -254,6 +256,11 @@ func (c09) Generate(r *core.Rng, run int, tier string) *core.History {
 		}
 		if tier != "thorough" && h.Cfg["maxdepth"] == 150000 {
 			h.Cfg["maxdepth"] = 20000 // deep default-limit recursions take seconds each: thorough tier only
+		}
+		if strings.HasPrefix(tpl, "cyc = ") {
+			// a large array assigned into itself (in-place mutation, see C06) is a cyclic value: printing it recurses for ever
+			h.Strs["key"] = "cyclic-container-print"
+			n = 0
 		}
 		if strings.HasPrefix(tpl, "mrec = macro") {
 			h.Strs["key"] = "recursion-in-macro-body"
@@ -445,6 +452,10 @@ func c09Worker(args []string) int {
 	lim := syscall.Rlimit{Cur: c09ASLimit, Max: c09ASLimit}
 	_ = syscall.Setrlimit(syscall.RLIMIT_AS, &lim)
 	world.Install(nil)
+	if strings.HasPrefix(prog, "cyc = ") {
+		// endless Go-level recursion over a cyclic value dies at any stack limit: use a small one to die quickly
+		debug.SetMaxStack(64 << 20)
+	}
 	if simmem {
 		world.ArmProcessMemory(c09MemLimit / 2)
 	}
